@@ -75,6 +75,10 @@ pub struct BhCase {
     /// a replay re-runs the stress and need not hit the same interleaving)
     #[serde(default)]
     pub stress: Option<Stress>,
+    /// every kind of event listener is registered on the layer (listeners observe; nothing else
+    /// may depend on their presence)
+    #[serde(default)]
+    pub listeners: bool,
 }
 
 #[derive(Clone, Debug, Serialize, Deserialize)]
@@ -105,6 +109,7 @@ fn stress_strategy(tier: Tier) -> BoxedStrategy<BhCase> {
             setter_order: 0,
             decoy: 0,
             nest_mask: 0,
+            listeners: false,
             stress: Some(Stress {
                 max,
                 threads,
@@ -282,9 +287,10 @@ fn case_strategy(tier: Tier) -> BoxedStrategy<BhCase> {
             0u8..4,
             prop_oneof![3 => Just(0u8), 1 => 1u8..=3],
             prop_oneof![5 => Just(0u64), 1 => (0u64..64).prop_map(|k| 1 << k), 1 => any::<u64>().prop_map(|m| m & 0xff)],
+            prop::bool::weighted(0.3),
         ),
     )
-        .prop_map(|(max, wait, clones, callers, order, hold, (setter_order, decoy, nest_mask))| BhCase {
+        .prop_map(|(max, wait, clones, callers, order, hold, (setter_order, decoy, nest_mask, listeners))| BhCase {
             max,
             wait,
             clones,
@@ -295,6 +301,7 @@ fn case_strategy(tier: Tier) -> BoxedStrategy<BhCase> {
             decoy,
             nest_mask,
             stress: None,
+            listeners,
         })
         .boxed()
 }
@@ -479,6 +486,13 @@ async fn interp(case: &BhCase) -> Verdict {
         3 => b0.max_concurrent_calls(case.max + 3),
         _ => b0,
     };
+    if case.listeners {
+        b0 = b0
+            .on_call_permitted(|_| {})
+            .on_call_rejected(|_| {})
+            .on_call_finished(|_| {})
+            .on_call_failed(|_| {});
+    }
     let layer = gen::apply_in_order(
         b0,
         vec![
@@ -969,6 +983,9 @@ async fn interp(case: &BhCase) -> Verdict {
     }
     if case.callers.iter().any(|c| c.svc2) {
         v.classes.push("two_services");
+    }
+    if case.listeners {
+        v.classes.push("event_listeners_registered");
     }
     if sim.order.multi_picks > 0 {
         v.classes.push("poll_order_choice");
